@@ -1,0 +1,121 @@
+//! Verification facade (cfg-gated): a mocked `P2p` whose command channel is owned by the
+//! harness (same construction as the `#[cfg(test)]` `P2p::mocked`).
+
+use std::sync::Arc;
+
+use celestia_proto::p2p::pb::HeaderRequest;
+use celestia_types::ExtendedHeader;
+use cid::Cid;
+use tokio::sync::{mpsc, oneshot, watch};
+
+use crate::p2p::{P2p, P2pCmd, P2pError};
+use crate::peer_tracker::PeerTrackerInfo;
+
+/// Public mirror of the `P2pCmd`s the workers under test can emit.
+#[derive(Debug)]
+pub enum VCmd {
+    HeaderEx {
+        request: HeaderRequest,
+        respond_to: oneshot::Sender<Result<Vec<ExtendedHeader>, P2pError>>,
+    },
+    /// The header-sub channel is remembered by the mock (see `VP2p::announce_new_head`).
+    InitHeaderSub {
+        head: ExtendedHeader,
+    },
+    GetShwapCid {
+        cid: Cid,
+        respond_to: oneshot::Sender<Result<Vec<u8>, P2pError>>,
+    },
+    GetNetworkHead {
+        respond_to: oneshot::Sender<Option<ExtendedHeader>>,
+    },
+    /// Any other command, rendered with `Debug` (its reply channel is dropped).
+    Other(String),
+}
+
+/// A mocked `P2p` plus the harness-side ends of its channels.
+pub struct VP2p {
+    p2p: Arc<P2p>,
+    cmd_rx: mpsc::Receiver<P2pCmd>,
+    header_sub_tx: Option<mpsc::Sender<ExtendedHeader>>,
+    peer_tracker_tx: watch::Sender<PeerTrackerInfo>,
+}
+
+impl VP2p {
+    /// Must be called inside a tokio runtime (a dummy task is spawned for the join handle).
+    pub fn new() -> VP2p {
+        let (p2p, cmd_rx, peer_tracker_tx) = P2p::verif_mocked();
+        VP2p {
+            p2p: Arc::new(p2p),
+            cmd_rx,
+            header_sub_tx: None,
+            peer_tracker_tx,
+        }
+    }
+
+    pub(crate) fn p2p(&self) -> Arc<P2p> {
+        self.p2p.clone()
+    }
+
+    /// Publishes the peer-tracker info the workers watch.
+    pub fn set_peers(&self, connected: u64, trusted: u64) {
+        self.peer_tracker_tx.send_modify(|info| {
+            info.num_connected_peers = connected;
+            info.num_connected_trusted_peers = trusted;
+        });
+    }
+
+    pub fn set_peer_info(&self, info: PeerTrackerInfo) {
+        self.peer_tracker_tx.send_modify(|i| *i = info);
+    }
+
+    /// Header-sub announcement; `false` if header-sub was not initialised yet or the
+    /// channel is full / closed.
+    pub fn announce_new_head(&self, header: ExtendedHeader) -> bool {
+        match self.header_sub_tx {
+            Some(ref tx) => tx.try_send(header).is_ok(),
+            None => false,
+        }
+    }
+
+    pub fn header_sub_initialised(&self) -> bool {
+        self.header_sub_tx.is_some()
+    }
+
+    fn convert(&mut self, cmd: P2pCmd) -> VCmd {
+        match cmd {
+            P2pCmd::HeaderExRequest {
+                request,
+                respond_to,
+            } => VCmd::HeaderEx {
+                request,
+                respond_to,
+            },
+            P2pCmd::InitHeaderSub { head, channel } => {
+                self.header_sub_tx = Some(channel);
+                VCmd::InitHeaderSub { head: *head }
+            }
+            P2pCmd::GetShwapCid { cid, respond_to } => VCmd::GetShwapCid { cid, respond_to },
+            P2pCmd::GetNetworkHead { respond_to } => VCmd::GetNetworkHead { respond_to },
+            other => VCmd::Other(format!("{other:?}")),
+        }
+    }
+
+    /// Non-blocking: the next command already queued by a worker, if any.
+    pub fn try_next_cmd(&mut self) -> Option<VCmd> {
+        let cmd = self.cmd_rx.try_recv().ok()?;
+        Some(self.convert(cmd))
+    }
+
+    /// Blocking: waits for the next command (`None` when every sender is gone).
+    pub async fn next_cmd(&mut self) -> Option<VCmd> {
+        let cmd = self.cmd_rx.recv().await?;
+        Some(self.convert(cmd))
+    }
+}
+
+impl Default for VP2p {
+    fn default() -> Self {
+        VP2p::new()
+    }
+}
